@@ -23,6 +23,7 @@ TARGETS = [
     ("seq_num_greater_equal", "utcp/utcp_packet_notify.c", "c", {}, None),
     ("seq_num_inc", "utcp/utcp_packet_notify.c", "c", {}, None),
     ("seq_num_diff", "utcp/utcp_packet_notify.c", "c", {}, None),
+    ("packet_notify_delta_seq", "utcp/utcp_packet_notify.c", "c", {}, None),
     ("BestSignedDifference", "utcp/utcp_packet.c", "c", {"Max": "UTCP_MAX_CHSEQUENCE"}, "BestSignedDifference_chseq"),
     ("MakeRelative", "utcp/utcp_packet.c", "c", {"Max": "UTCP_MAX_CHSEQUENCE"}, "MakeRelative_chseq"),
     ("GetFreeSendBufferBits", "utcp/utcp_packet.c", "c", {}, None),
